@@ -114,11 +114,48 @@ def run(mid, checks):
     json.dump(meta, open(os.path.join(dst, "meta.json"), "w"), indent=1)
 
 
+def runwt(mid, checks, copy="/work/s/verif"):
+    """the same as run, but without touching /repo or /verif: the patch is applied in a scratch worktree and the checks
+    run from a synchronised copy of /verif with VERIF_REPO pointing at that worktree (lib/vlib.py honours it), so that
+    seeded changes can be screened while other work uses /repo.  Recorded in meta.json under checks_run_wt."""
+    dst = os.path.join(SEEDED, mid)
+    meta = json.load(open(os.path.join(dst, "meta.json")))
+    checks = checks or [meta["property"]]
+    os.makedirs(os.path.dirname(copy), exist_ok=True)
+    sh("rsync -a --exclude .git --exclude evidence --exclude replays --exclude coverage /verif/ %s/" % copy)
+    os.makedirs(os.path.join(copy, "evidence"), exist_ok=True)
+    wt = tempfile.mkdtemp(prefix="seedrun_", dir="/tmp")
+    os.rmdir(wt)
+    sh("git -C /repo worktree add -f --detach %s HEAD" % wt)
+    res = {}
+    try:
+        rc, out = sh("git apply %s" % os.path.join(dst, "patch.diff"), cwd=wt)
+        if rc != 0:
+            print("patch does not apply: " + out[-300:])
+            res = {"error": "patch does not apply"}
+        else:
+            for c in checks:
+                rc, o = sh("timeout 1800 %s/bin/check %s --tier quick" % (copy, c), cwd=copy, env=dict(os.environ, VERIF_REPO=wt))
+                v = [l for l in o.split("\n") if l.startswith("VIOLATION")]
+                first = [l for l in o.split("\n") if l.startswith("  [")][:2]
+                res[c] = {"exit": rc, "violation": v[:1], "first": [f[:300] for f in first]}
+                print(mid, c, "exit", rc, (v[:1] or ["(no violation line)"])[0][:200])
+                for f in first:
+                    print("     ", f[:260])
+                sys.stdout.flush()
+    finally:
+        sh("git -C /repo worktree remove --force %s" % wt)
+    meta.setdefault("checks_run_wt", {}).update(res)
+    json.dump(meta, open(os.path.join(dst, "meta.json"), "w"), indent=1)
+
+
 if __name__ == "__main__":
     if sys.argv[1] == "confirm":
         sys.exit(0 if confirm(sys.argv[2], sys.argv[3]) else 1)
     elif sys.argv[1] == "reconfirm":
         # the same confirmation against /repo's current HEAD, for a change already stored under /verif/seeded
         sys.exit(0 if confirm(os.path.join(SEEDED, sys.argv[2]), sys.argv[2]) else 1)
+    elif sys.argv[1] == "runwt":
+        runwt(sys.argv[2], sys.argv[3:])
     elif sys.argv[1] == "run":
         run(sys.argv[2], sys.argv[3:])
